@@ -329,6 +329,8 @@ def units(tier, seed):
     us = [cfg_of(*b) for b in BOUNDS[tier]] + [cfg_of(*b) for b in ADDON_BOUNDS[tier]]
     from . import c09     # how the payback period is shown in the report (N/A clause): the real writer on the symbolic model
     shown = c09.CONFIGS[tier][:3] if tier == 'quick' else c09.CONFIGS[tier][:12]
+    from . import c03     # closed-loop family: SBTEconomics.Calculate carries its own copy of the cash-flow code
+    us.append({k: v for k, v in c03.sbt_cfg({}).items() if k != 'flags'})
     us += [{'harness': 'payback-display', 'kind': k, 'L': L, 'T': T, 'K': K, 'variant': x} for (k, L, T, K, x) in shown]
     return us
 
@@ -370,7 +372,7 @@ def run_unit(unit):
     cfg = {k: v for k, v in unit.items() if k != 'tier'}
     tmo = 20000 if unit['tier'] == 'quick' else 60000
     spec = spec_of(cfg)
-    log = harness.UnitLog(cfg)
+    log = harness.UnitLog({k: v for k, v in cfg.items() if k != 'extra'})
     prepared(cfg)
     ex = example_inputs(cfg)
     # concrete witness: which path does the example point take?
